@@ -612,6 +612,15 @@ def run(ctx):
                     else:
                         tgt = ix.call_target(rv) if tag(rv) == "call" else None
                         if tgt is None or tgt.key != pricing[want].key:
+                            # the pricing function may be a thin wrapper that the inliner has looked through: identify
+                            # the call before inlining
+                            raw = sym.subst(sym.unwrap(fp.ret) if tag(fp.ret) == "agg" else fp.ret, m)
+                            while tag(raw) in ("unwrap", "ok") or (tag(raw) == "agg" and payload(raw)[1] == "Ok" and len(kids(raw)) == 1):
+                                raw = kids(raw)[0]
+                            t2 = ix.call_target(raw) if tag(raw) == "call" else None
+                            if t2 is not None and t2.key == pricing[want].key:
+                                rv, tgt = raw, t2
+                        if tgt is None or tgt.key != pricing[want].key:
                             bad = bad or "per-snapshot figure is %s, not the %s pricing function" % (sym.show(rv, 3)[:120], want)
                         else:
                             ks = [ix.inline(k) for k in kids(rv)]
